@@ -99,6 +99,11 @@ def d1_layout(ctx, fits):
     cq, cf = comp[0]
     dname = cf.args.args[0].arg
     call = [c for c in walk(cf) if isinstance(c, ast.Call) and unparse(c.func) == 'general_chisqfunc'][0]
+    names = [a for a in call.args if isinstance(a, ast.Name)]
+    if names:
+        ctx.violated(rule, 'fits.py:%s#slices' % cq, 'the compact chi-square passes %s from the enclosing scope instead of a slice of its argument: the mixed second '
+                     'derivative with respect to that block is lost' % [unparse(a) for a in names], fits.loc(call))
+        return
     try:
         sl = [slice_bounds(a, env) for a in call.args]
     except Unrecognised as e:
@@ -432,5 +437,6 @@ SELFTEST = [
     ('prior-sign', 'pyerrors/fits.py', "            return anp.concatenate(((ivars - model) / dy_f, (p[prior_mask] - pr) / dp_f))", "            return anp.concatenate(((ivars - model) / dy_f, (p[prior_mask] - pr) / dp_f ** 2))", 'C07-D6'),
     ('corr-residual-unwhitened', 'pyerrors/fits.py', "anp.concatenate((anp.dot(chol_inv, (ivars - model)), (p[prior_mask] - pr) / dp_f))", "anp.concatenate((anp.dot(chol_inv, (ivars - model)) / dy_f, (p[prior_mask] - pr) / dp_f))", 'C07-D6'),
     ('corrfit-range', 'pyerrors/correlators.py', "xs = np.array([x for x in range(fitrange[0], fitrange[1] + 1) if self.content[x] is not None])", "xs = np.array([x for x in range(fitrange[0], fitrange[1]) if self.content[x] is not None])", 'C07-D7'),
+    ('compact-closure-data', 'pyerrors/fits.py', "general_chisqfunc(d[:n_parms], d[n_parms: n_parms + len_y], d[n_parms + len_y:])", "general_chisqfunc(d[:n_parms], y_f, d[n_parms + len_y:])", 'C07-D1'),
     ('benign-dof-reorder', 'pyerrors/fits.py', "output.dof = y_all.shape[-1] - n_parms + len(loc_priors)", "output.dof = len(loc_priors) + y_all.shape[-1] - n_parms", 'BENIGN'),
 ]
